@@ -20,7 +20,12 @@ Open Scope Z_scope.
                   keeps: sum of the children's guarantee <= parent's guarantee, same for deserved
                   (an unset amount counts as 0);
      CapInv       a positive capability of a queue is <= the capability of the nearest proper
-                  ancestor below root that sets that dimension. --- *)
+                  ancestor below root that sets that dimension (a positive amount), for the
+                  dimensions the scheduler's Resource keeps (like SumInv: a name api.NewResource
+                  drops is bounded by neither clause).
+   Hypothesis of the statement itself: every request is validated against the queue set produced
+   by the previously admitted ones (serialised admission, lister up to date) — see
+   C10_concurrent_*_refuted below. --- *)
 Theorem C10_admitted_history_preserves_tree : forall c rs Q0,
   1 <= max_depth c -> TreeInv c Q0 -> TreeInv c (run_history c Q0 rs).
 Proof. exact tree_history. Qed.
@@ -39,8 +44,12 @@ Theorem C10_shape_history : forall c Q0 rs,
 Proof. exact shape_history. Qed.
 Print Assumptions C10_shape_history.
 
-(* what ShapeInv gives the capacity plugin (capacity.go updateAncestors aborts the session on
-   a cycle or on a parent that does not exist): neither can happen *)
+(* consequences of ShapeInv: no queue is its own proper ancestor, and every named parent exists.
+   The second is the one condition on which the capacity plugin's hierarchy build
+   (capacity.go buildHierarchicalQueueAttrs / updateAncestors) really aborts the session: its cycle
+   test is dead for a cycle detached from root (queueOpts is consulted before recursing), so
+   C10_capacity_plugin_accepts below is C10_parent_exists restated on the model [capacity_ready]
+   of that abort condition — the real plugin is run on every final queue set by the harness. *)
 Theorem C10_no_cycle : forall c Q n s,
   ShapeInv c Q -> Q !! n = Some s -> n <> root -> ~ anc Q n n.
 Proof. exact shape_acyclic. Qed.
@@ -131,6 +140,30 @@ Print Assumptions C10_root_not_enforced_refuted.
 Theorem C10_no_fuel_verdict : forall c Q, ShapeInv c Q -> forall r, verdict_of c Q r <> VFuel.
 Proof. exact no_fuel_verdict. Qed.
 Print Assumptions C10_no_fuel_verdict.
+
+(* --- serialised admission is a hypothesis, not a theorem: two requests validated against the SAME
+   queue set (two webhook replicas, or two requests closer than the informer's propagation delay)
+   are both admitted and leave a cycle / an over-subscribed parent / a dangling parent that makes the
+   capacity plugin abort.  The property's quantifier ("against the queue set produced by the
+   previously admitted requests") makes the same assumption. --- *)
+Theorem C10_concurrent_cycle_refuted :
+  exists c Q r1 r2, TreeInv c Q /\ 1 <= max_depth c /\ verdict_of c Q r1 = VAllowed /\
+    verdict_of c Q r2 = VAllowed /\ ~ ShapeInv c (apply_req (apply_req Q r1) r2).
+Proof. exact concurrent_cycle_refuted. Qed.
+Print Assumptions C10_concurrent_cycle_refuted.
+
+Theorem C10_concurrent_sums_refuted :
+  exists c Q r1 r2, TreeInv c Q /\ 1 <= max_depth c /\ verdict_of c Q r1 = VAllowed /\
+    verdict_of c Q r2 = VAllowed /\ ~ SumInv (apply_req (apply_req Q r1) r2).
+Proof. exact concurrent_sums_refuted. Qed.
+Print Assumptions C10_concurrent_sums_refuted.
+
+Theorem C10_concurrent_dangling_refuted :
+  exists c Q r1 r2, TreeInv c Q /\ 1 <= max_depth c /\ verdict_of c Q r1 = VAllowed /\
+    verdict_of c Q r2 = VAllowed /\ ~ ShapeInv c (apply_req (apply_req Q r1) r2) /\
+    capacity_ready (apply_req (apply_req Q r1) r2) = false.
+Proof. exact concurrent_dangling_refuted. Qed.
+Print Assumptions C10_concurrent_dangling_refuted.
 
 (* --- the record of the defects: the validation as it was BEFORE the fixes admits a re-parenting
    that closes a cycle, one that pushes a moved subtree beyond the depth limit (F3, first fix), and
